@@ -197,6 +197,32 @@ func runC17(c *Ctx) {
 		gfmDocs(c, ng, func(stream string, d []byte) { items = append(items, docItem{stream, d}) })
 		gfmModelCases(c, items, 4*ng)
 	}
+	// interleaved renderings on one instance: while the header row of document A is being
+	// written, the writer converts document B on the same Markdown value; both outputs must be
+	// what they are when the documents are converted one after the other
+	{
+		tbl := []string{"|a|b|c|\n|-|:-|-:|\n|1|2|3|\n|4|5|6|\n", "x|y\n-|-\nz|w\n", "|h|\n|-|\n|`c\\|d`|\n|e|f|\n", "- |p|q|\n  |-|-|\n  |r|\n"}
+		for _, cf := range cfgs {
+			md := cf.Build()
+			for _, a := range tbl {
+				for _, b := range tbl {
+					seqA, _, _ := convertSafe(md, []byte(a))
+					seqB, _, _ := convertSafe(md, []byte(b))
+					var outB bytes.Buffer
+					w := &reentrantWriter{at: []byte("<thead>\n<tr>\n"), f: func() { _ = md.Convert([]byte(b), &outB) }}
+					func() {
+						defer func() { recover() }()
+						_ = md.Convert([]byte(a), w)
+					}()
+					in := map[string]interface{}{"config": cf.Name(), "source": q([]byte(a)), "converted_inside_the_writer": q([]byte(b))}
+					if !bytes.Equal(w.buf.Bytes(), seqA) || !bytes.Equal(outB.Bytes(), seqB) {
+						c.Violate("table-shape", in, fmt.Sprintf("interleaved renderings differ from sequential ones: %.300q and %.300q, sequentially %.300q and %.300q", w.buf.Bytes(), outB.Bytes(), seqA, seqB), "table-shape")
+					}
+					c.Count("interleaved-renderings", cf.Name()+a+"\x00"+b, true)
+				}
+			}
+		}
+	}
 	lawSweep(c, cfgs, items, "table-shape", func(d []byte) bool { return true }, func(m mdT, d []byte) (string, bool) {
 		out, e, p := convertSafe(m.md, d)
 		if e != "" || p != "" {
@@ -328,3 +354,44 @@ func tableTransformCase(c *Ctx, src []byte) {
 	}
 	c.Case("TableTransform", []string{hx(src), strings.Join(ls, ";")}, res)
 }
+
+// a destination that runs f once, when what it has received so far ends with `at`
+type reentrantWriter struct {
+	buf   bytes.Buffer
+	at    []byte // nil: run f when atLen bytes have been received
+	atLen int
+	f     func()
+	done  bool
+}
+
+func (w *reentrantWriter) check() {
+	if !w.done && (w.at != nil && bytes.HasSuffix(w.buf.Bytes(), w.at) || w.at == nil && w.buf.Len() >= w.atLen) {
+		w.done = true
+		w.f()
+	}
+}
+
+// the methods of util.BufWriter: the renderer then writes through without a buffer of its own
+func (w *reentrantWriter) Write(p []byte) (int, error) {
+	n, err := w.buf.Write(p)
+	w.check()
+	return n, err
+}
+func (w *reentrantWriter) WriteString(s string) (int, error) {
+	n, err := w.buf.WriteString(s)
+	w.check()
+	return n, err
+}
+func (w *reentrantWriter) WriteByte(b byte) error {
+	err := w.buf.WriteByte(b)
+	w.check()
+	return err
+}
+func (w *reentrantWriter) WriteRune(r rune) (int, error) {
+	n, err := w.buf.WriteRune(r)
+	w.check()
+	return n, err
+}
+func (w *reentrantWriter) Available() int { return 1 << 20 }
+func (w *reentrantWriter) Buffered() int  { return 0 }
+func (w *reentrantWriter) Flush() error   { return nil }
